@@ -73,6 +73,7 @@ Qed.
 Lemma mmap_range_shape m o fl addr size prot u l : mmap_range m o fl addr size prot = Val (u, l) ->
   exists cnt ms gref,
     pages m (os_page o) size = Val (cnt, ms) /\
+    grant_ref (os_page o) addr = Val gref /\
     let ix := dev_index (os_page o) gref in
     let c32 := cnt mod 4294967296 in
     (u = Ok (ms, ix) /\ os_mmap_ok o = true /\ l = [EvIoctlMap gref c32 ix true; EvMmap ms prot fl true ix true]) \/
@@ -82,7 +83,7 @@ Proof.
   unfold mmap_range.
   destruct (pages m (os_page o) size) as [[cnt ms]| |]; cbn [bind]; try discriminate.
   destruct (grant_ref (os_page o) addr) as [gref| |]; cbn [bind]; try discriminate.
-  intros H. exists cnt, ms, gref. split; [reflexivity|]. cbn zeta.
+  intros H. exists cnt, ms, gref. split; [reflexivity|]. split; [reflexivity|]. cbn zeta.
   destruct (os_ioctl_ok o && (0 <? cnt mod 4294967296)).
   - unfold mmap_unix in H. destruct (os_mmap_ok o); inv_val.
     + left. repeat split.
@@ -108,6 +109,8 @@ Lemma guarded_shape m o g off len wr l r : os_mmap_ok o = true ->
   balanced_block l /\
   forall w, r = Val (Some w) ->
     exists ip, window_arith m (os_page o) off len = Val (w_page_base w, ip, w_bytes w) /\
+               (exists addr, padd m 936 (xr_base g) (w_page_base w) = Val addr /\
+                             grant_ref (os_page o) addr = Val (w_gref w)) /\
                exists cnt, pages m (os_page o) (w_bytes w) = Val (cnt, w_msize w) /\
                w_count w = cnt mod 4294967296 /\
                In (EvIoctlMap (w_gref w) (w_count w) (w_index w) true) l /\
@@ -118,17 +121,18 @@ Proof.
   unfold open_window.
   destruct (window_arith m (os_page o) off len) as [[[pb ip] ws]| |] eqn:WA;
     try (intros H; inv_val; split; [left; reflexivity|intros w E; discriminate]).
-  destruct (padd m 936 (xr_base g) pb) as [addr| |];
+  destruct (padd m 936 (xr_base g) pb) as [addr| |] eqn:PA;
     try (intros H; inv_val; split; [left; reflexivity|intros w E; discriminate]).
   destruct (mmap_range m o (xr_flags g) addr ws (if wr then PROT_WRITE else PROT_READ)) as [[u l1]| |] eqn:MR;
     try (intros H; inv_val; split; [left; reflexivity|intros w E; discriminate]).
-  destruct (mmap_range_shape _ _ _ _ _ _ _ _ MR) as [cnt [ms [gref [PG S]]]]. cbn zeta in S.
+  destruct (mmap_range_shape _ _ _ _ _ _ _ _ MR) as [cnt [ms [gref [PG [GR S]]]]]. cbn zeta in S.
   destruct S as [[-> [_ ->]]|[[-> [M' _]]|[-> ->]]].
   - unfold close_window, unmap_range. cbn [w_msize w_bytes w_index]. rewrite PG. cbn [bind].
     intros H; inv_val. split.
     + right. left. do 6 eexists. reflexivity.
     + intros w E. inversion E; subst; clear E. cbn [w_page_base w_bytes w_msize w_count w_gref w_index].
-      exists ip. split; [reflexivity|]. exists cnt. split; [exact PG|]. split; [reflexivity|].
+      exists ip. split; [reflexivity|]. split; [exists addr; split; [exact PA|exact GR]|].
+      exists cnt. split; [exact PG|]. split; [reflexivity|].
       split; [left; reflexivity|right; left; reflexivity].
   - congruence.
   - intros H; inv_val. split; [right; right; do 3 eexists; reflexivity|intros w E; discriminate].
@@ -205,7 +209,7 @@ Proof.
   destruct (guarded m o g goff glen wr) as [l' r'] eqn:G.
   destruct (guarded_shape _ _ _ _ _ _ _ _ M G) as [_ W].
   destruct r' as [ow| |]; try discriminate. inversion R; subst; clear R.
-  destruct (W w eq_refl) as [ip [WA [cnt [PG [C32 [I1 I2]]]]]].
+  destruct (W w eq_refl) as [ip [WA [_ [cnt [PG [C32 [I1 I2]]]]]]].
   destruct (plan_inside _ _ _ _ _ _ _ _ P) as [A1 [A2 A3]].
   destruct (window_covers_lemma m (os_page o) goff glen Hp ltac:(lia))
     as [pb [ip' [ws [cnt' [ms [WA' [PG' [E1 [E2 [E3 [E4 [E5 [E6 E7]]]]]]]]]]]]].
